@@ -4,7 +4,14 @@
 use h3::ext::Protocol;
 use h3::proto::headers::{Header, HeaderError};
 use h3::qpack::HeaderField;
+use bytes::Bytes;
+use h3v::simquic::*;
 use h3v::{hex, run_lines, unhex};
+use std::cell::Cell;
+use std::future::{poll_fn, Future};
+use std::pin::Pin;
+use std::rc::Rc;
+use std::task::Poll;
 use http::header::{HeaderMap, HeaderName, HeaderValue};
 use http::uri::{Authority, Parts, PathAndQuery, Scheme, Uri};
 use http::{Extensions, Method, StatusCode};
@@ -173,6 +180,416 @@ fn send_req(m: &str, s: &str, a: &str, p: &str, x: &str, h: &str) -> String {
     }
 }
 
+
+// ====================================================================== end to end over SimQuic (scripted peer)
+// e2e.req <fields>            the peer opens stream 0 and sends one HEADERS frame whose field section is those field
+//                             lines encoded with h3's own qpack::encode_stateless, then FIN; the REAL server runs
+//                             accept() + resolve_request(): `ok <parts of the http::Request handed over>` or
+//                             `err code=<StreamError code> reset=<RESET_STREAM code h3 put on the stream|-> stop=<STOP_SENDING code|->`
+// e2e.resp <fields>           the REAL client sends GET https://a/, the peer answers with that HEADERS frame: recv_response()
+// e2e.trl <srv|cli> <fields>  after a minimal valid message the HEADERS frame arrives as trailers: recv_data() then recv_trailers()
+// wire.req m= s= a= p= x= h=  the REAL client.send_request(http::Request built from those parts): the HEADERS frame written
+//                             on the new stream is QPACK-decoded: `ok <field lines on the wire>` | `err` | `badinput ..`
+// wire.resp st= h=            the REAL server.send_response; wire.trl <srv|cli> h=: send_trailers after a message
+const MIN_REQUEST: &str = "0000d1d7500161c1"; // :method GET, :scheme https, :authority a, :path /
+const MIN_RESPONSE: &str = "0000d9"; // :status 200
+
+fn varint(v: u64) -> Vec<u8> {
+    if v < 1 << 6 {
+        vec![v as u8]
+    } else if v < 1 << 14 {
+        ((v as u16) | 0x4000).to_be_bytes().to_vec()
+    } else if v < 1 << 30 {
+        ((v as u32) | 0x8000_0000).to_be_bytes().to_vec()
+    } else {
+        (v | 0xc000_0000_0000_0000).to_be_bytes().to_vec()
+    }
+}
+fn frame(ty: u64, payload: &[u8]) -> Vec<u8> {
+    let mut f = varint(ty);
+    f.extend(varint(payload.len() as u64));
+    f.extend_from_slice(payload);
+    f
+}
+fn read_varint(b: &[u8], pos: &mut usize) -> Option<u64> {
+    let first = *b.get(*pos)?;
+    let n = 1usize << (first >> 6);
+    if *pos + n > b.len() {
+        return None;
+    }
+    let mut v = (first & 0x3f) as u64;
+    for i in 1..n {
+        v = (v << 8) | b[*pos + i] as u64;
+    }
+    *pos += n;
+    Some(v)
+}
+fn section_of(fs: &[(Vec<u8>, Vec<u8>)]) -> Vec<u8> {
+    let mut block = bytes::BytesMut::new();
+    h3::qpack::encode_stateless(&mut block, to_header_fields(fs)).expect("driver: qpack encode");
+    block.to_vec()
+}
+/// the frames in `b` from offset `from`: the field lines of the k-th HEADERS frame, QPACK-decoded
+fn decode_headers_frame(b: &[u8], k: usize) -> String {
+    let mut pos = 0;
+    let mut seen = 0;
+    while pos < b.len() {
+        let ty = match read_varint(b, &mut pos) {
+            Some(t) => t,
+            None => return "?truncated".into(),
+        };
+        let len = match read_varint(b, &mut pos) {
+            Some(l) => l as usize,
+            None => return "?truncated".into(),
+        };
+        if pos + len > b.len() {
+            return "?truncated".into();
+        }
+        if ty == 1 {
+            if seen == k {
+                let mut payload = Bytes::copy_from_slice(&b[pos..pos + len]);
+                return match h3::qpack::decode_stateless(&mut payload, u64::MAX) {
+                    Ok(d) => format!("ok {}", show_fields(d.fields)),
+                    Err(_) => "?qpack".into(),
+                };
+            }
+            seen += 1;
+        }
+        pos += len;
+    }
+    "nothing-written".into()
+}
+fn wire_codes(w: &Shared, id: u64) -> (String, String) {
+    let g = w.lock().unwrap();
+    let (mut reset, mut stop) = (Vec::new(), Vec::new());
+    for l in g.log.iter() {
+        let ws: Vec<&str> = l.split_whitespace().collect();
+        match ws.as_slice() {
+            ["reset", i, c] if i.parse::<u64>() == Ok(id) => reset.push(c.to_string()),
+            ["stop", i, c] if i.parse::<u64>() == Ok(id) => stop.push(c.to_string()),
+            _ => {}
+        }
+    }
+    let j = |v: Vec<String>| if v.is_empty() { "-".to_string() } else { v.join(",") };
+    (j(reset), j(stop))
+}
+fn refusal(e: &h3::error::StreamError, w: &Shared, id: u64) -> String {
+    let r = stream_err(e); // scope:code:variant
+    let p: Vec<&str> = r.split(':').collect();
+    let (reset, stop) = wire_codes(w, id);
+    if p[0] != "s" {
+        return format!("connerr {}", r);
+    }
+    format!("err code={} reset={} stop={}", p[1], reset, stop)
+}
+async fn cancellable<F: Future>(f: F, cancel: &Rc<Cell<bool>>) -> Option<F::Output> {
+    let mut f: Pin<Box<F>> = Box::pin(f);
+    poll_fn(|cx| {
+        if let Poll::Ready(x) = f.as_mut().poll(cx) {
+            return Poll::Ready(Some(x));
+        }
+        if cancel.get() {
+            cancel.set(false);
+            return Poll::Ready(None);
+        }
+        Poll::Pending
+    })
+    .await
+}
+fn ev(w: &Shared, e: String) {
+    assert!(apply_event(w, &e), "event {}", e);
+}
+fn chunk_ev(w: &Shared, id: u64, b: &[u8]) {
+    // large sections arrive in several chunks
+    for c in b.chunks(16384) {
+        ev(w, format!("{}:c:{}", id, hex(c)));
+    }
+}
+type SrvStream = h3::server::RequestStream<SimBidi<Bytes>, Bytes>;
+type CliStream = h3::client::RequestStream<SimBidi<Bytes>, Bytes>;
+
+fn show_request(req: &http::Request<()>) -> String {
+    let uri = req.uri();
+    format!(
+        "ok m={} s={} a={} p={} x={} h={}",
+        hex(req.method().as_str().as_bytes()),
+        opt(uri.scheme_str()),
+        opt(uri.authority().map(|a| a.as_str())),
+        opt(uri.path_and_query().map(|p| p.as_str())),
+        opt(req.extensions().get::<Protocol>().map(|p| p.as_str())),
+        show_map(req.headers())
+    )
+}
+
+async fn trailers_of<S: h3::quic::RecvStream, B: bytes::Buf>(
+    s: &mut h3::connection::RequestStream<S, B>,
+) -> Result<Option<HeaderMap>, h3::error::StreamError> {
+    poll_fn(|cx| s.poll_recv_trailers(cx)).await
+}
+
+async fn srv_accept(w: &Shared, cancel: &Rc<Cell<bool>>, first: &[u8], second: Option<&[u8]>)
+    -> Result<(h3::server::Connection<SimConn, Bytes>, http::Request<()>, SrvStream), String> {
+    let mut b = h3::server::builder();
+    b.send_grease(false);
+    let mut conn: h3::server::Connection<SimConn, Bytes> = match cancellable(b.build(SimConn { world: w.clone() }), cancel).await {
+        Some(Ok(c)) => c,
+        _ => return Err("build-err".into()),
+    };
+    ev(w, "B0".into());
+    chunk_ev(w, 0, &frame(1, first));
+    if let Some(t) = second {
+        chunk_ev(w, 0, &frame(1, t));
+    }
+    ev(w, "0:F".into());
+    match cancellable(conn.accept(), cancel).await {
+        Some(Ok(Some(resolver))) => match cancellable(resolver.resolve_request(), cancel).await {
+            Some(Ok((req, s))) => Ok((conn, req, s)),
+            Some(Err(e)) => {
+                let r = refusal(&e, w, 0);
+                std::mem::forget(conn);
+                Err(r)
+            }
+            None => Err("hang".into()),
+        },
+        Some(Ok(None)) => Err("accept-none".into()),
+        Some(Err(e)) => Err(format!("connerr {}", conn_err(&e))),
+        None => Err("hang".into()),
+    }
+}
+
+async fn e2e_req(w: Shared, section: Vec<u8>, cancel: Rc<Cell<bool>>) -> String {
+    match srv_accept(&w, &cancel, &section, None).await {
+        Ok((conn, req, s)) => {
+            let r = show_request(&req);
+            std::mem::forget(s);
+            std::mem::forget(conn);
+            r
+        }
+        Err(r) => r,
+    }
+}
+async fn e2e_trl_srv(w: Shared, section: Vec<u8>, cancel: Rc<Cell<bool>>) -> String {
+    match srv_accept(&w, &cancel, &unhex(MIN_REQUEST), Some(&section)).await {
+        Ok((conn, _req, mut s)) => {
+            let r = match cancellable(s.recv_data(), &cancel).await {
+                Some(Ok(None)) => match cancellable(s.recv_trailers(), &cancel).await {
+                    Some(Ok(Some(m))) => format!("ok h={}", show_map(&m)),
+                    Some(Ok(None)) => "none".to_string(),
+                    Some(Err(e)) => refusal(&e, &w, 0),
+                    None => "hang".into(),
+                },
+                Some(Ok(Some(_))) => "unexpected-data".into(),
+                Some(Err(e)) => format!("data-{}", refusal(&e, &w, 0)),
+                None => "hang".into(),
+            };
+            std::mem::forget(s);
+            std::mem::forget(conn);
+            r
+        }
+        Err(r) => format!("setup-{}", r),
+    }
+}
+async fn cli_request(w: &Shared, cancel: &Rc<Cell<bool>>, req: http::Request<()>)
+    -> Result<(h3::client::Connection<SimConn, Bytes>, h3::client::SendRequest<SimOpener, Bytes>, CliStream), String> {
+    let mut b = h3::client::builder();
+    b.send_grease(false);
+    let (conn, mut sr): (h3::client::Connection<SimConn, Bytes>, h3::client::SendRequest<SimOpener, Bytes>) =
+        match cancellable(b.build(SimConn { world: w.clone() }), cancel).await {
+            Some(Ok(c)) => c,
+            _ => return Err("build-err".into()),
+        };
+    match cancellable(sr.send_request(req), cancel).await {
+        Some(Ok(s)) => Ok((conn, sr, s)),
+        Some(Err(_e)) => {
+            std::mem::forget(conn);
+            std::mem::forget(sr);
+            Err("err".into())
+        }
+        None => Err("hang".into()),
+    }
+}
+fn min_get() -> http::Request<()> {
+    http::Request::builder().method("GET").uri("https://a/").body(()).unwrap()
+}
+async fn e2e_cli(w: Shared, trl: bool, section: Vec<u8>, cancel: Rc<Cell<bool>>) -> String {
+    let (conn, sr, mut s) = match cli_request(&w, &cancel, min_get()).await {
+        Ok(x) => x,
+        Err(r) => return format!("setup-{}", r),
+    };
+    let _ = cancellable(s.finish(), &cancel).await;
+    let id = s.id().into_inner();
+    if trl {
+        chunk_ev(&w, id, &frame(1, &unhex(MIN_RESPONSE)));
+    }
+    chunk_ev(&w, id, &frame(1, &section));
+    ev(&w, format!("{}:F", id));
+    let r = match cancellable(s.recv_response(), &cancel).await {
+        Some(Ok(resp)) => {
+            if trl {
+                match cancellable(s.recv_data(), &cancel).await {
+                    Some(Ok(None)) => match cancellable(s.recv_trailers(), &cancel).await {
+                        Some(Ok(Some(m))) => format!("ok h={}", show_map(&m)),
+                        Some(Ok(None)) => "none".to_string(),
+                        Some(Err(e)) => refusal(&e, &w, id),
+                        None => "hang".into(),
+                    },
+                    Some(Ok(Some(_))) => "unexpected-data".into(),
+                    Some(Err(e)) => format!("data-{}", refusal(&e, &w, id)),
+                    None => "hang".into(),
+                }
+            } else {
+                format!("ok st={} h={}", resp.status().as_u16(), show_map(resp.headers()))
+            }
+        }
+        Some(Err(e)) => {
+            if trl {
+                format!("setup-{}", refusal(&e, &w, id))
+            } else {
+                refusal(&e, &w, id)
+            }
+        }
+        None => "hang".into(),
+    };
+    std::mem::forget(s);
+    std::mem::forget(conn);
+    std::mem::forget(sr);
+    r
+}
+
+fn build_request(m: &str, s: &str, a: &str, p: &str, x: &str, h: &str) -> Result<http::Request<()>, String> {
+    let method = Method::from_bytes(&unhex(m)).map_err(|_| "badinput method".to_string())?;
+    let mut parts = Parts::default();
+    if s != "-" {
+        parts.scheme = Some(Scheme::try_from(&unhex(if s == "e" { "-" } else { s })[..]).map_err(|_| "badinput scheme".to_string())?);
+    }
+    if a != "-" {
+        parts.authority = Some(Authority::try_from(&unhex(a)[..]).map_err(|_| "badinput authority".to_string())?);
+    }
+    if p != "-" {
+        parts.path_and_query = Some(PathAndQuery::try_from(&unhex(p)[..]).map_err(|_| "badinput path".to_string())?);
+    }
+    let uri = Uri::from_parts(parts).map_err(|_| "badinput uri".to_string())?;
+    let map = build_map(&parse_fields(h)).ok_or("badinput fields".to_string())?;
+    let proto = protocol_of(x).ok_or("badinput protocol".to_string())?;
+    let mut req = http::Request::new(());
+    *req.method_mut() = method;
+    *req.uri_mut() = uri;
+    *req.headers_mut() = map;
+    if let Some(pr) = proto {
+        req.extensions_mut().insert(pr);
+    }
+    Ok(req)
+}
+async fn wire_req(w: Shared, req: http::Request<()>, cancel: Rc<Cell<bool>>) -> String {
+    match cli_request(&w, &cancel, req).await {
+        Ok((conn, sr, s)) => {
+            let id = s.id().into_inner();
+            let tx = w.lock().unwrap().tx_of(id);
+            std::mem::forget(s);
+            std::mem::forget(conn);
+            std::mem::forget(sr);
+            decode_headers_frame(&tx, 0)
+        }
+        Err(r) => r,
+    }
+}
+async fn wire_cli_trl(w: Shared, map: HeaderMap, cancel: Rc<Cell<bool>>) -> String {
+    match cli_request(&w, &cancel, min_get()).await {
+        Ok((conn, sr, mut s)) => {
+            let id = s.id().into_inner();
+            let r = match cancellable(s.send_trailers(map), &cancel).await {
+                Some(Ok(())) => decode_headers_frame(&w.lock().unwrap().tx_of(id), 1),
+                Some(Err(_)) => "err".into(),
+                None => "hang".into(),
+            };
+            std::mem::forget(s);
+            std::mem::forget(conn);
+            std::mem::forget(sr);
+            r
+        }
+        Err(r) => format!("setup-{}", r),
+    }
+}
+async fn wire_srv(w: Shared, resp: Option<http::Response<()>>, trl: Option<HeaderMap>, cancel: Rc<Cell<bool>>) -> String {
+    match srv_accept(&w, &cancel, &unhex(MIN_REQUEST), None).await {
+        Ok((conn, _req, mut s)) => {
+            let mut k = 0;
+            let mut r = String::new();
+            if let Some(resp) = resp {
+                r = match cancellable(s.send_response(resp), &cancel).await {
+                    Some(Ok(())) => decode_headers_frame(&w.lock().unwrap().tx_of(0), 0),
+                    Some(Err(_)) => "err".into(),
+                    None => "hang".into(),
+                };
+                k = 1;
+            }
+            if let Some(map) = trl {
+                r = match cancellable(s.send_trailers(map), &cancel).await {
+                    Some(Ok(())) => decode_headers_frame(&w.lock().unwrap().tx_of(0), k),
+                    Some(Err(_)) => "err".into(),
+                    None => "hang".into(),
+                };
+            }
+            std::mem::forget(s);
+            std::mem::forget(conn);
+            r
+        }
+        Err(r) => format!("setup-{}", r),
+    }
+}
+
+fn drive<F: Future<Output = String> + 'static>(mk: impl FnOnce(Shared, Rc<Cell<bool>>) -> F, side: Side) -> String {
+    let w = World::new(side, 1000, 1000, None);
+    let cancel = Rc::new(Cell::new(false));
+    let mut ex = Exec::new();
+    let t = ex.spawn(mk(w.clone(), cancel.clone()));
+    let mut rounds = 0;
+    loop {
+        if !ex.run() {
+            return "livelock".into();
+        }
+        if ex.done(t) {
+            break;
+        }
+        rounds += 1;
+        if rounds > 1000 {
+            return "harness-gave-up".into();
+        }
+        cancel.set(true);
+        ex.poll(t);
+    }
+    ex.result(t).cloned().unwrap_or_default()
+}
+
+fn many_fields(count: &str, field: &str, prefix: &str) -> Vec<(Vec<u8>, Vec<u8>)> {
+    let mut fs = parse_fields(prefix);
+    let one = parse_fields(field);
+    let n: usize = count.parse().unwrap();
+    for _ in 0..n {
+        fs.push(one[0].clone());
+    }
+    fs
+}
+fn summarize(r: String, big: bool) -> String {
+    if big {
+        if let Some(i) = r.find(" h=") {
+            let cnt = r[i + 3..].split(';').filter(|x| *x != "-").count();
+            return format!("{} h#={}", &r[..i], cnt);
+        }
+    }
+    r
+}
+fn e2e(kind: &str, fs: Vec<(Vec<u8>, Vec<u8>)>) -> String {
+    let sec = section_of(&fs);
+    match kind {
+        "req" => drive(move |w, c| e2e_req(w, sec, c), Side::Server),
+        "resp" => drive(move |w, c| e2e_cli(w, false, sec, c), Side::Client),
+        "trl.srv" => drive(move |w, c| e2e_trl_srv(w, sec, c), Side::Server),
+        "trl.cli" => drive(move |w, c| e2e_cli(w, true, sec, c), Side::Client),
+        _ => "driver-error kind".into(),
+    }
+}
+
 fn main() {
     run_lines(|ws| match ws {
         ["hdr.req", f] => recv("req", to_header_fields(&parse_fields(f))),
@@ -196,6 +613,48 @@ fn main() {
             }
             r
         }
+        ["e2e.req", f] => e2e("req", parse_fields(f)),
+        ["e2e.resp", f] => e2e("resp", parse_fields(f)),
+        ["e2e.trl", role, f] => e2e(if *role == "srv" { "trl.srv" } else { "trl.cli" }, parse_fields(f)),
+        // e2e.many <req|resp|trl.srv|trl.cli> <count> <field> <prefix fields>
+        ["e2e.many", kind, count, field, prefix] => {
+            let n: usize = count.parse().unwrap();
+            summarize(e2e(kind, many_fields(count, field, prefix)), n > 64)
+        }
+        ["wire.req", m, s, a, p, x, h] => {
+            match build_request(arg(m, "m="), arg(s, "s="), arg(a, "a="), arg(p, "p="), arg(x, "x="), arg(h, "h=")) {
+                Ok(req) => drive(move |w, c| wire_req(w, req, c), Side::Client),
+                Err(e) => e,
+            }
+        }
+        ["wire.resp", st, h] => {
+            let st: u16 = arg(st, "st=").parse().unwrap();
+            let status = match StatusCode::from_u16(st) {
+                Ok(s) => s,
+                Err(_) => return "badinput status".into(),
+            };
+            match build_map(&parse_fields(arg(h, "h="))) {
+                Some(map) => {
+                    let mut resp = http::Response::new(());
+                    *resp.status_mut() = status;
+                    *resp.headers_mut() = map;
+                    drive(move |w, c| wire_srv(w, Some(resp), None, c), Side::Server)
+                }
+                None => "badinput fields".into(),
+            }
+        }
+        ["wire.trl", role, h] => match build_map(&parse_fields(arg(h, "h="))) {
+            Some(map) => {
+                if *role == "srv" {
+                    let mut resp = http::Response::new(());
+                    *resp.status_mut() = StatusCode::OK;
+                    drive(move |w, c| wire_srv(w, Some(resp), Some(map), c), Side::Server)
+                } else {
+                    drive(move |w, c| wire_cli_trl(w, map, c), Side::Client)
+                }
+            }
+            None => "badinput fields".into(),
+        },
         ["send.req", m, s, a, p, x, h] => send_req(
             arg(m, "m="),
             arg(s, "s="),
